@@ -89,6 +89,17 @@ def gen_cases(ctx):
                 else: ts, rest = qs[:1], qs[1:]
                 cs = rng.sample(rest, min(len(rest), rng.choice([0, 1, 2, 3])))
                 add(kind, n, ts, cs, special=(rng.random() < 0.2))
+    # a control listed twice (the CPU path treats it as one control; so must every kernel's control test)
+    for kind in GPU_KINDS:
+        for n in (3, 4):
+            con = [p for p in placements(n, kind) if p[1]]
+            if not con: continue
+            for _ in range(2):
+                ts, cs = rng.choice(con)
+                cs = list(cs) + [rng.choice(list(cs))]
+                rng.shuffle(cs)
+                cases.append({"op": "gpu_gate", "kind": kind, "params": rand_params(rng, kind), "n": n, "ts": list(ts), "cs": cs,
+                              "v": rand_vec32(rng, n, "generic"), "orders": orders, "thr": 10})
     # angles far beyond one turn: cos/sin must be taken in double precision and only then narrowed to binary32
     # (narrowing the angle first loses |angle| * 2^-24 radians of phase)
     for kind in GPU_KINDS:
